@@ -64,6 +64,21 @@ CHECKS = {
             "Trajectories must agree with PyTorch's own optimizers within a path-length-relative bound during warm-up; after the start step every block's update norm and direction are checked.",
             "Domain restricted to where both formulations are mathematically identical (dampening 0, all-or-nothing presence for bias-corrected / momentum variants).",
             "6/C02"),
+    "C10": ("exploration",
+            "Hypothesis-generated spectra x bases x roots x dtypes x solver configs with hypothesis.target() on error/bound, against a float64 / 50-digit (mpmath) spectral reference of the actual input; solver-flag => residual implication checked through the solvers' own entry points",
+            "Every returned root is compared with the spectral reference within the stated n*u*cond bound (uninformative cases reported, not asserted); diagonal and 1x1 fast paths against the general path; CONVERGED => tolerance met and independent residual small; higher-order solver returns only results within its guard.",
+            "float64 eigh / mpmath.eigsy trusted; n <= 32 quick, <= 128 thorough.",
+            "6/C10"),
+    "C11": ("exploration",
+            "Hypothesis-generated degenerate symmetric matrices (zero, rank-deficient, repeated and slightly negative eigenvalues); algebraic laws as oracle (finite, symmetric, lambda_max cap, SPD, commutation, orthogonal equivariance as a metamorphic relation) and shape fuzzing for rejection",
+            "Each law is asserted at its backward-error level with K=64; epsilon is kept at or above the dtype resolution of the scale, as the property states.",
+            "Laws are necessary conditions; accuracy itself is C10.",
+            "6/C11"),
+    "C12": ("exploration",
+            "Hypothesis-generated PSD matrices x estimates x QR settings; validity predicates (orthonormal, diagonalising, ascending Rayleigh quotients), bitwise fallback differential (QR with zero estimate vs eigh), and a float64 reference orthogonal iteration admitting every iteration count with a conditioning-aware deviation bound; fixed-point law for exact eigenbases",
+            "Unconditional predicates always; identity of the QR basis only where n*u*prod(cond) keeps the comparison meaningful (fraction reported).",
+            "float64 QR/eigh reference; sign and iteration-count ambiguity resolved as described in DESIGN C12.",
+            "6/C12"),
 }
 
 PENDING_REASON = "check not built yet at this commit (work in progress; all eighteen properties are planned to be claimed, see DESIGN.md section 0)"
